@@ -16,9 +16,11 @@ REG.contract('WorkflowPlan.get_task_predecessors', params={'task_id': 'any'},
 def _lemma_pred_succ():
     g, p, t = z3.Ints('g p t')
     # over the two query contracts: p in predecessors(t)  <=>  t in successors(p)
-    pred_t = z3.Lambda([z3.Int('x')], z3.If(EDGE(g, z3.Int('x'), t), 1, 0))
-    succ_p = z3.Lambda([z3.Int('x')], z3.If(EDGE(g, p, z3.Int('x')), 1, 0))
-    return [], (z3.Select(pred_t, p) > 0) == (z3.Select(succ_p, t) > 0)
+    from .deps import SUCC_CNT, PRED_CNT
+    x = z3.Int('x')
+    hyps = [z3.ForAll([x], z3.Select(PRED_CNT(g, t), x) == z3.If(EDGE(g, x, t), 1, 0)),
+            z3.ForAll([x], z3.Select(SUCC_CNT(g, p), x) == z3.If(EDGE(g, p, x), 1, 0))]
+    return hyps, (z3.Select(PRED_CNT(g, t), p) > 0) == (z3.Select(SUCC_CNT(g, p), t) > 0)
 
 
 REG.lemmas.append(('C14-p-precedes-t-iff-t-succeeds-p', ['C14'], _lemma_pred_succ))
@@ -32,7 +34,7 @@ from .world import world_of   # noqa: E402
 REG.ctor_params['BatchPlanning'] = {'algorithm': 'str', 'delay_model': 'DelayModel'}
 REG.inline_ok.update({'Planning._create_observation_task_id', 'Buffer.buffer_storage_summary'})
 
-CONCAT = z3.Function('concat', I, I, I)
+CONCAT = z3.Function('str_concat', I, I, I)
 STR_OF = z3.Function('str_of', I, I)
 STR_OF_NUM = z3.Function('str_of_num', R, I)
 USC = lambda: z3.IntVal(STRINGS.intern('_'))
